@@ -6,7 +6,7 @@ import PoaVerif.Model.Chain
 namespace PoaVerif
 
 inductive TrigId where
-  | D1 | D2 | D3 | D4 | D5 | D6 | D7 | D8 | D9a | D9b
+  | D1 | D2 | D3 | D4 | D5 | D6 | D7 | D8 | D9a | D9b | D16
   deriving DecidableEq, Repr, Inhabited
 
 namespace Trig
@@ -55,6 +55,7 @@ def ofRemove (s : App) (op : Nat) : List TrigId :=
   | none => if imbalance s then [TrigId.D9b] else []
   | some v =>
     (if (entriesOf s op).any (fun p => p != powerOf v.tokens && p != 0) then [TrigId.D2] else []) ++
+    (if s.updated.contains op then [TrigId.D3] else []) ++
     (if s.vals.any (fun w => w.tokens ≥ PR && !w.jailed && op < w.op && (persistentEntries s w).all (· == 0)) then [TrigId.D6] else []) ++
     (if imbalance s then [TrigId.D9b] else [])
 
@@ -72,6 +73,11 @@ def ofLeaf (s : App) (sg : Signer) : Msg → List TrigId
   | .params p => if App.isAdmin sg && App.paramsValid p && p.maxVals.toNat < s.index.length then [.D7] else []
   | .unjail op => if sg = .op op then ofUnjail s op else []
   | _ => []
+
+/-- D16 (x/slashing, not PoA): the downtime rule jails the last active validator — the set becomes empty.
+    Evaluated on the states before and after x/slashing's BeginBlocker. -/
+def lastValidatorJailed (before after : App) : Bool :=
+  (before.vals.filter App.isActive).length ≥ 1 && (after.vals.filter App.isActive).length = 0
 
 mutual
 /-- triggers met while executing a message tree (state threaded like `handle`) -/
